@@ -12,7 +12,8 @@
 //	                                         in the order Equals Disjoint Touches Contains Covers Within
 //	                                         CoveredBy Crosses Overlaps (1 | 0 | e error | p panic); rel0/preds0: the
 //	                                         same for the pair without the added empty collection member ("-" if none);
-//	                                         last field: the labelled overlay behind Relate(a,b) ("-" without the hook)
+//	                                         then the labelled overlay behind Relate(a,b) ("-" without the hook) and the
+//	                                         exponent s: the implementation was run on A*2^s, B*2^s (exactly), the dump is A, B
 package main
 
 import (
@@ -684,6 +685,7 @@ func main() {
 	kinds := map[string]int{}
 	grids := map[int]int{}
 	xformed := 0
+	pow2Scaled := 0
 	names := []string{"P", "L", "Y", "MP", "ML", "MY", "GC"}
 	for i := 0; i < a.N; i++ {
 		r := root.Fork()
@@ -760,6 +762,29 @@ func main() {
 			}
 			xformed++
 		}
+		// a fifth of the pairs is rescaled EXACTLY by a power of two (2^-60..2^-10 or 2^1..2^40, both operands
+		// alike): every float operation of the engine commutes with it, so the matrix must be that of the
+		// lattice pair. The lattice pair is what gets dumped (AL, BL); the implementation sees the scaled one.
+		AL, BL := A, B
+		scaleExp := 0
+		if r.Chance(1, 5) {
+			e := r.Range(1, 40)
+			if r.Chance(2, 3) {
+				e = -r.Range(10, 60)
+			}
+			f := math.Ldexp(1, e)
+			sc := func(xy geom.XY) geom.XY { return geom.XY{X: xy.X * f, Y: xy.Y * f} }
+			back := func(xy geom.XY) geom.XY { return geom.XY{X: xy.X / f, Y: xy.Y / f} }
+			SA, SB := A.TransformXY(sc), B.TransformXY(sc)
+			if dump(SA.TransformXY(back)) == dump(A) && dump(SB.TransformXY(back)) == dump(B) { // exact both ways
+				A, B = SA, SB
+				if hasBase {
+					A0, B0 = A0.TransformXY(sc), B0.TransformXY(sc)
+				}
+				scaleExp = e
+				pow2Scaled++
+			}
+		}
 		va, vb := 0, 0
 		if A.Validate() == nil {
 			va = 1
@@ -778,10 +803,10 @@ func main() {
 		if va == 1 && vb == 1 {
 			ov = overlayDump(A, B)
 		}
-		fmt.Fprintf(w, "%d\tPR\t%s\t%s\t%s\t%s\t%s\t%s\t%s\t%d%d\t%s\t%s\n", next(), class, dump(A), dump(B),
-			relate(A, B), relate(B, A), preds(A, B), preds(B, A), va, vb, base, ov)
+		fmt.Fprintf(w, "%d\tPR\t%s\t%s\t%s\t%s\t%s\t%s\t%s\t%d%d\t%s\t%s\t%d\n", next(), class, dump(AL), dump(BL),
+			relate(A, B), relate(B, A), preds(A, B), preds(B, A), va, vb, base, ov, scaleExp)
 	}
 	js, _ := json.Marshal(map[string]interface{}{"classes": classes, "type_pairs": kinds, "grid_side": grids,
-		"affine_moved_pairs": xformed, "overlays_dumped_through_hook": overlaysDumped, "matcher_patterns": len(patterns), "matcher_matrices": total, "matcher_strings": nStr})
+		"affine_moved_pairs": xformed, "pow2_rescaled_pairs": pow2Scaled, "overlays_dumped_through_hook": overlaysDumped, "matcher_patterns": len(patterns), "matcher_matrices": total, "matcher_strings": nStr})
 	fmt.Fprintf(w, "#GEN\t%s\n", js)
 }
